@@ -90,7 +90,7 @@ def run(run):
         if klen is not None and klen != deg + 6 + 1 and deg > 1:
             run.notes.append(f"trim({deg}) keeps {klen} powers")
     # ---- openings: honest aggregate witness passes, and the acceptance polynomial is the textbook one
-    shapes = [(2, 1, 2), (2, 2, 3), (4, 3, 3)] if quick else [(2, 1, 2), (2, 2, 3), (4, 3, 3), (4, 2, 5), (8, 2, 6), (8, 3, 4)]
+    shapes = [(2, 1, 2), (2, 2, 3), (4, 3, 3)] if quick else [(2, 1, 2), (2, 2, 3), (4, 3, 3), (4, 2, 5), (8, 2, 4)]
     for deg, npol, ln in shapes:
         # flips are limited to the leading-coefficient tests of the input polynomials (the first
         # npol*ln symbolic comparisons): every pattern of zero / shorter polynomials is explored
